@@ -31,7 +31,8 @@ def collect_units(prop):
     for tgt, cds in dsl.CONTRACTS.items():
         for i, cd in enumerate(cds):
             if prop in cd.props and not verify.parsed(cd).options.get('assumed') \
-                    and not verify.parsed(cd).options.get('bounded'):
+                    and not verify.parsed(cd).options.get('bounded') \
+                    and not verify.parsed(cd).options.get('witness_only'):
                 units.append(('contract', tgt, i))
     for name, lm in dsl.LEMMAS.items():
         if prop in lm.props:
